@@ -191,11 +191,11 @@ def strategy(spec):
             if mesh.get("domains", {}).get("mode") == "scatter":
                 mesh["domains"]["mode"] = "patch"
             kinds = ["RWG", "SNC"]
-            modes = [None, "abs", "log_abs", "abs_squared", "real", "imag", "callable"]
+            modes = [None, None, None, "abs", "log_abs", "abs_squared", "real", "imag", "callable"]
         else:
             mesh = draw(mg.mesh_descs("any", max_elems=40, domains=True, max_edits=2, allow_refine=False))
             kinds = ["DP0", "DP1", "P1"]
-            modes = [None, "real", "imag", "abs", "log_abs", "abs_squared", "callable"]
+            modes = [None, None, None, "real", "imag", "abs", "log_abs", "abs_squared", "callable"]
         return {"mesh": mesh, "space": draw(sg.space_descs(kinds)), "seed": draw(st.integers(0, 999)), "complex": draw(st.booleans()),
                 "data_type": draw(st.sampled_from(["node", "element"])), "transformation": draw(st.sampled_from(modes)),
                 "fmt": draw(st.sampled_from([".msh", ".vtu"])), "binary": draw(st.sampled_from([True, True, True, False]))}
